@@ -519,3 +519,20 @@ Proof.
   intros v H. unfold IWNUMBUF_SIZE. change (2 ^ 63) with 9223372036854775808 in H.
   change (10 ^ (32 - 2)) with 1000000000000000000000000000000. lia.
 Qed.
+
+(* ---- jbn_from_json / jbn_from_js as their callers see them *)
+Theorem jdoc_total : forall strict js rng s, nz s -> exists out st, jdoc strict js rng (s ++ [0]) = Ok (out, st).
+Proof.
+  intros strict js rng s H. unfold jdoc. destruct (jparse_total js rng s H) as (out & st & E & _). rewrite E. stp.
+  destruct out; [eauto|]. destruct (strict && (j_nodes st =? 0)); eauto.
+Qed.
+(* once rootless texts are refused, a success always comes with a node *)
+Theorem jdoc_has_root : forall js rng b p st, jdoc true js rng b = Ok (JAt p, st) -> j_nodes st <> 0.
+Proof.
+  intros js rng b p st H. unfold jdoc in H. destruct (jparse js rng b) as [[o s1]| |]; try discriminate. cbn [tbind fst snd] in H.
+  destruct o; [discriminate|]. cbn [andb] in H. destruct (j_nodes s1 =? 0) eqn:X; [discriminate|].
+  inversion H; subst. apply Z.eqb_neq in X. exact X.
+Qed.
+(* the code as it is: a lone closing bracket is a success without any node *)
+Theorem jdoc_rootless_refuted : exists s, nz s /\ jdoc false false (fun _ => false) (s ++ [0]) = Ok (JAt 0, mkJ 0 (-1) 0).
+Proof. exists [93]. split; [repeat constructor; discriminate|vm_compute; reflexivity]. Qed.
